@@ -34,5 +34,7 @@ pub(crate) use page_store::{
 pub use page_store::{InMemoryBackend, Savepoint};
 #[cfg(redb_verif)]
 pub use page_store::verif as page_store_verif;
+#[cfg(all(redb_verif, not(redb_no_std)))]
+pub use page_store::verif_cached as page_store_verif_cached;
 pub(crate) use table_tree::{PageListMut, TableTree, TableTreeMut};
 pub(crate) use table_tree_base::{InternalTableDefinition, TableType};
